@@ -210,6 +210,14 @@ def _leastness(eng, st, g, start, S):
     return vbool(z3.Implies(closed, z3.ForAll([n], z3.Implies(f_desc(g.x, start.x, n), z3.Select(S.x, n)))))
 
 
+@REG.specfun("lam_cap0")
+def _lam_cap0(eng, st, f):
+    """The first captured default-argument value of a closure stored as a Lam[...] value (see pyvc.vals.parse_type)."""
+    if f.t[0] != "opaque" or f.t[1] not in vals.LAM_CAPS:
+        raise OutOfSubset(f"lam_cap0 on {f.t}")
+    return vals.from_term(vals.LAM_CAPS[f.t[1]][0], vals.lam_cap_fn(f.t[1], 0)(f.x))
+
+
 # exceptions
 REG.exc_bases.update({
     "NetworkXError": ["Exception"], "ImproperlyConfigured": ["Exception"], "RuleInconsistency": ["Exception"],
